@@ -111,6 +111,33 @@ def oracle(p, o):
                 bad("jinja2.Environment(autoescape=True) is reported as B701")
             if isinstance(ae, ast.Constant) and ae.value is False and not at("B701", c):
                 bad("jinja2.Environment(autoescape=False) is not reported as B701")
+    # B202: extractall with a filter keyword and no members argument - only the string literal 'data' is the safe filter; a name
+    # or attribute that happens to be spelled data is a variable like any other
+    if on("B202") and "tarfile" in p["src"] and "nosec" not in p["src"]:
+        first_tar = min([n.lineno for n in ast.walk(tree) if isinstance(n, (ast.Import, ast.ImportFrom))
+                         and ("tarfile" in [a.name for a in n.names] or getattr(n, "module", None) == "tarfile")] or [10 ** 9])
+        for c in allcalls:
+            if not (isinstance(c.func, ast.Attribute) and c.func.attr == "extractall" and plain(c) and c.lineno > first_tar):
+                continue
+            others = [d for d in allcalls if d is not c and isinstance(d.func, ast.Attribute) and d.func.attr == "extractall"
+                      and not (d.end_lineno < c.lineno or d.lineno > c.end_lineno)]
+            if others:
+                continue                      # two extractall calls on the same lines: attribution by line would be ambiguous
+            has_members = kw(c, "members") is not None or len(c.args) >= 2 or any(k.arg == "members" for k in c.keywords)
+            fl = kw(c, "filter")
+            if fl is None:
+                continue
+            hits = at("B202", c)
+            if has_members:
+                # members given: how the finding is graded is the members' matter, but a filter that is a variable does not silence it
+                if isinstance(fl, (ast.Name, ast.Attribute)) and not hits:
+                    bad("extractall(members=..., filter=<the variable %s>): the filter is not the literal 'data', yet no B202 is reported" % ast.unparse(fl))
+                continue
+            if isinstance(fl, (ast.Name, ast.Attribute)):
+                if len(hits) != 1 or hits[0]["sev"] != "HIGH":
+                    bad("extractall(filter=<the variable %s>) without members: expected one HIGH B202, got %s" % (ast.unparse(fl), [(h["sev"], h["conf"]) for h in hits]))
+            elif isinstance(fl, ast.Constant) and fl.value == "data" and hits:
+                bad("extractall(filter='data') (the safe variant) is reported as B202")
     # B608 on single-statement programs: q = "<sql>" % x  /  cur.execute("<sql>" % x)
     if on("B608"):
         for n in tree.body:
